@@ -375,6 +375,53 @@ fn bfs_templates() -> Vec<Template> {
     ]
 }
 
+/// Histories without state merging: one request repeated r times, then every ordered pair of requests, judged after every
+/// exchange. The searches below merge states by the hook snapshot; additional private state that only repetition moves
+/// (a byte counter, say) is invisible to that key, not to this family.
+fn repeat_then_probe(ctx: &Ctx, rep: &mut Report) {
+    let mut ts = bfs_templates();
+    let big = |num: u32, more: bool| Template { mtype: 0, method: 3, bloat: 0, b1: Blk::Val(num, more, 6), b2: Blk::None, payload: 1024, path: "k", ep: 1, size1: None, size2: None };
+    ts.extend([big(0, true), big(1, true), big(17, true), big(18, true), big(40, true), big(18, false)]);
+    let reps: [usize; 5] = [1, 2, 3, 17, 40];
+    let budgets: [usize; 2] = [64, 1152];
+    let k = ts.len() as u64;
+    let radices = [budgets.len() as u64, k, reps.len() as u64, k, k];
+    let n = product(&radices);
+    let fam = "repeat-then-probe";
+    ctx.family(
+        rep,
+        fam,
+        &format!("no state merging: budget {{64,1152}} x one of {} requests (the search alphabet + 1024-byte blocks 0,1,17,18,40) repeated {{1,2,3,17,40}} times x every ordered pair of requests; every exchange judged (clean errors, growth bound, oversize jump rejected and buffer unchanged)", k),
+        n,
+        true,
+        |i, rep| {
+            let d = decode(i, &radices);
+            let budget = budgets[d[0] as usize];
+            let r = reps[d[2] as usize];
+            if r > 3 && d[4] % 2 != 0 {
+                rep.count("skipped-long-repetition-thinned-probes");
+                return;
+            }
+            let mut seq: Vec<usize> = vec![d[1] as usize; r];
+            seq.push(d[3] as usize);
+            seq.push(d[4] as usize);
+            let mut srv = Server::new(budget, Duration::from_secs(3600));
+            for (idx, a) in seq.iter().enumerate() {
+                let t = &ts[*a];
+                let before = srv.snapshot();
+                let x = srv.exchange(t.ep, &t.bytes(42_000), &|_c| app_reply(0));
+                let after = srv.snapshot();
+                if let Err((sig, what)) = judge(t, &x, &before, &after) {
+                    rep.violation(viol(fam, i, sig, format!("exchange {} of the history: {}", idx, what), Json::obj().set("budget", budget).set("repeated", ts[d[1] as usize].json()).set("times", r).set("then", ts[d[3] as usize].json()).set("and_then", ts[d[4] as usize].json())));
+                    return;
+                }
+            }
+            rep.count("history-served");
+            rep.bucket(&(budget, d[1], r));
+        },
+    );
+}
+
 fn deep(ctx: &Ctx, rep: &mut Report) {
     let ts = bfs_templates();
     let kinds: [u64; 2] = [0, 4];
@@ -524,6 +571,7 @@ pub fn run(ctx: &Ctx, rep: &mut Report) {
     size_options(ctx, rep);
     jump_after_large_buffer(ctx, rep);
     depth2(ctx, rep);
+    repeat_then_probe(ctx, rep);
     deep(ctx, rep);
     rep.assume("requests are built with the reference encoder and are parseable; the application never panics; replies are encoded with the unlimited encoder (the budget is C10's concern)");
     rep.assume("buffer lengths are read through the cfg(coap_lite_verif) snapshot hook; 'rejected' = intercept_request returned Err");
